@@ -181,9 +181,12 @@ class NeuralTS(RLAlgorithm):
         )
         # Z_0 = lamb * I, so its inverse is I / lamb
         self.sigma_inv = torch.eye(self.numel).to(self.device) / self.lamb
+        # NOTE: theta_0 is a snapshot of the initial weights: it must not stay connected to
+        # the parameters in the autograd graph (the regulariser's gradient would cancel out, and
+        # the connection cannot be saved in a checkpoint)
         self.theta_0 = torch.cat(
             [w.flatten() for w in self.exp_layer.parameters() if w.requires_grad]
-        )
+        ).detach()
 
     def get_action(
         self, obs: ObservationType, action_mask: Optional[ArrayLike] = None
